@@ -260,6 +260,10 @@ pub struct SsaRun {
     /// means NaN payload/sign differences (which the properties allow) can be
     /// amplified into arbitrary value differences downstream
     pub bitsens: Vec<i64>,
+    /// operand bits seen by operations that distinguish -0 from +0 (atan2 both
+    /// operands, divisor of div, recip): a zero here can amplify the allowed
+    /// sign-of-zero slack of min/max between evaluators
+    pub zerosens: Vec<i64>,
 }
 
 /// Reference evaluation of an SSA tape (stored root first; executed from the
@@ -273,6 +277,7 @@ pub fn ssa_eval(ssa: &[GOp], vars: &[f32]) -> SsaRun {
     let mut clauses = vec![];
     let mut undefined_read = false;
     let mut bitsens = vec![];
+    let mut zerosens = vec![];
     let mut get = |vals: &Vec<Option<f32>>, i: i64| -> f32 {
         match vals[i as usize] {
             Some(v) => v,
@@ -295,6 +300,9 @@ pub fn ssa_eval(ssa: &[GOp], vars: &[f32]) -> SsaRun {
                 if g.name == "Rand" {
                     bitsens.push(bits(a));
                 }
+                if g.name == "Recip" {
+                    zerosens.push(bits(a));
+                }
                 let v = if g.name == "Copy" { a } else { unary_of(&g.name).unwrap().eval(a) };
                 vals[g.out as usize] = Some(v);
             }
@@ -308,6 +316,13 @@ pub fn ssa_eval(ssa: &[GOp], vars: &[f32]) -> SsaRun {
                     bitsens.push(bits(l));
                     bitsens.push(bits(r));
                 }
+                if g.name == "Atan" {
+                    zerosens.push(bits(l));
+                    zerosens.push(bits(r));
+                }
+                if g.name == "Div" {
+                    zerosens.push(bits(r));
+                }
                 if g.is_choice() {
                     clauses.push((g.name.clone(), bits(l), bits(r)));
                 }
@@ -316,7 +331,7 @@ pub fn ssa_eval(ssa: &[GOp], vars: &[f32]) -> SsaRun {
             c => panic!("class {c} in SSA tape"),
         }
     }
-    SsaRun { outs, clauses, vals, undefined_read, bitsens }
+    SsaRun { outs, clauses, vals, undefined_read, bitsens, zerosens }
 }
 
 /// A choice clause with its operands exported: `[name, class, lhs output
@@ -362,4 +377,23 @@ pub fn export_clause_operands(p: &Prog) -> (Prog, Vec<ClauseSpec>) {
     // slot names must stay below the tape length (the allocator sizes its table by it): true
     // here because the tape only grew
     (Prog { ssa, nvars: p.nvars }, specs)
+}
+
+/// Exports every defined slot as an extra output (local obligations: each op
+/// of each evaluator is judged against that evaluator's own operand values).
+/// Returns the program and, per SSA slot, its output index.
+pub fn export_all_slots(p: &Prog) -> (Prog, std::collections::HashMap<i64, i64>) {
+    let mut nout = p.nout() as i64;
+    let mut extra = vec![];
+    let mut map = std::collections::HashMap::new();
+    for g in p.ssa.iter().rev() {
+        if g.class != 0 && !map.contains_key(&g.out) {
+            extra.push(GOp::new(0, "Output", -1, g.out, nout, 0));
+            map.insert(g.out, nout);
+            nout += 1;
+        }
+    }
+    let mut ssa = extra;
+    ssa.extend(p.ssa.iter().cloned());
+    (Prog { ssa, nvars: p.nvars }, map)
 }
